@@ -107,7 +107,7 @@ def recognise(warnings):
 def expected(sheets, form=None):
     exp = {k: [] for k in RX}
     names = list(sheets)
-    lower = [n.lower() for n in names]
+    lower = [n.strip().lower() for n in names]  # letter case and surrounding blanks are not part of a sheet name
     # missing translations
     for sheet, cols in (("survey", SURVEY_COLS + ["video", "big-image"]), ("choices", CHOICE_COLS + ["video", "big-image"])):
         if sheet not in sheets:
@@ -130,7 +130,7 @@ def expected(sheets, form=None):
     for key in ("settings", "entities"):
         if key in lower:
             continue
-        cands = [n for n in names if lev(n.lower(), key) <= 2 and n not in ("survey", "choices", "settings", "external_choices", "osm", "entities") and not n.startswith("_")]
+        cands = [n for n in names if lev(n.lower(), key) <= 2 and n.strip().lower() not in ("survey", "choices", "settings", "external_choices", "osm", "entities") and not n.startswith("_")]
         if cands:
             exp["sheet"].append((key, tuple(sorted(cands))))
     # or_other + translations
@@ -408,7 +408,7 @@ def run_shard(ctx):
             elif v == 2:
                 form.settings = dict([("id_string", "other_id")] + [(k, x) for k, x in form.settings.items() if k != "id_string"])  # id_string column first
         if rng.random() < 0.2:
-            form.extra_sheets[rng.choice(["setting", "Settings ", "entity", "entitis", "_setting", "sett", "choice"])] = (["a"], [["1"]])
+            form.extra_sheets[rng.choice(["setting", "Setings ", "entity", "entitis", "_setting", "sett", "choice"])] = (["a"], [["1"]])
         sheets = form.to_sheets()
         fmt = "dict"
         if rng.random() < 0.4:
